@@ -535,7 +535,10 @@ fn run_case(ctx: &CaseCtx, stats: &mut Stats, out: &mut Vec<Violation>, harness:
                 None => continue,
             };
             // ---- primary run: new_with_state over &str, with match_() text
-            set_use_text(true);
+            // match_() text is recorded for inputs up to 256 characters (accumulated matches make
+            // the log quadratic otherwise)
+            let text = n <= 256;
+            set_use_text(text);
             set_action_budget((n + 2) as u32);
             let mut lx = match catch_unwind(AssertUnwindSafe(|| (fac.new_with_state)(&s, fresh_state(n)))) {
                 Ok(l) => l,
@@ -554,13 +557,13 @@ fn run_case(ctx: &CaseCtx, stats: &mut Stats, out: &mut Vec<Violation>, harness:
             let vinfo = if vi == 0 { None } else { Some(spec_info(&specs[vi], n, s.len())) };
             let info_v = vinfo.as_ref().unwrap_or(&info);
             let cross = n <= plan.cross_len;
-            let (h, div, n_amb) = reference_for(&mut compiled[vi], input, true, cross, &obs_els, info_v, harness);
+            let (h, div, n_amb) = reference_for(&mut compiled[vi], input, text, cross, &obs_els, info_v, harness);
             // ---- evidence counters from the reference's knowledge of this execution
             if vi == 0 {
                 account(stats, entry, lead, input, &h, &ro.obs, n_amb, &mut shape_done);
             }
             // ---- model-free invariants
-            for (p, d) in model_free(&ro.obs, &s, input, &locs, true, logs_all[vi]) {
+            for (p, d) in model_free(&ro.obs, &s, input, &locs, text, logs_all[vi]) {
                 push_v(out, stats, viol(ctx, vi, p, d, input, "new_with_state (model-free invariant)", "".into(), show_calls(&ro.calls)));
             }
             // ---- reference comparison
@@ -589,13 +592,14 @@ fn run_case(ctx: &CaseCtx, stats: &mut Stats, out: &mut Vec<Violation>, harness:
                 let limit = read_limit(n, n_rules);
                 let mut variants: Vec<(&str, bool, Calls)> = vec![];
                 {
-                    set_use_text(true);
+                    set_use_text(text);
                     let r = catch_unwind(AssertUnwindSafe(|| {
                         let mut l = (fac.new)(&s);
                         drive(&mut l, n, 0)
                     }));
+                    HEARTBEAT.fetch_add(1, Ordering::Relaxed);
                     if let Ok(r) = r {
-                        variants.push(("new", true, r.calls));
+                        variants.push(("new", text, r.calls));
                     }
                 }
                 set_use_text(false);
@@ -626,10 +630,11 @@ fn run_case(ctx: &CaseCtx, stats: &mut Stats, out: &mut Vec<Violation>, harness:
                             push_v(out, stats, viol(ctx, vi, "C09", format!("constructor panicked: {}", m), input, name, "".into(), m.clone()));
                         }
                     }
+                    HEARTBEAT.fetch_add(1, Ordering::Relaxed);
                     stats.inc("executions", 1);
                     stats.inc("ctor_executions", 1);
                 }
-                set_use_text(true);
+                set_use_text(text);
                 for (name, with_text, calls) in &variants {
                     let a = if *with_text { norm_calls(calls) } else { strip_text(calls) };
                     let b = if *with_text { prim.clone() } else { prim_nt.clone() };
@@ -649,7 +654,7 @@ fn run_case(ctx: &CaseCtx, stats: &mut Stats, out: &mut Vec<Violation>, harness:
                 let n_calls = prim.len();
                 for k in 0..=(n_calls + 1) {
                     for sched in 0..3u8 {
-                        set_use_text(true);
+                        set_use_text(text);
                         let r = catch_unwind(AssertUnwindSafe(|| clone_run(fac, &s, n, k, sched)));
                         stats.inc("clone_runs", 1);
                         match r {
